@@ -30,7 +30,7 @@ class GaussFamily:
         self.e = dict(e)
         topo = e.get("topo", "lsn")
         self.topo = topo
-        self.s = float(e.get("s", 1.0))
+        self.s = float(e.get("s", 1.0)) * float(e.get("pscale", 1.0))
         dR, dZ = e.get("shift", [0.0, 0.0])
         eps = float(e.get("eps", 0.003))
         r0, z0, w = 1.5 + dR, 0.3, float(e.get("w", 0.3))
